@@ -161,10 +161,28 @@ Definition inv (st : state) : Prop :=
   (forall id t, In (id, t) (store st) -> libtag (nxt (hs st)) t) /\
   (forall t, In t (snaps st) -> snd t < nxt (hs st)).
 
+(* what an operation guarantees about the heap it leaves: no library object that existed when it
+   started is written *)
+Definition frame (lo : Z) (s s' : hst) : Prop :=
+  nxt s <= nxt s' /\ forall t, fst t = Lib -> snd t < lo -> lookup (hp s') t = lookup (hp s) t.
+
+Lemma good_frame lo s s' : good lo s s' -> frame lo s s'.
+Proof. intros (_ & A & B). split; auto. Qed.
+
+(* a well-behaved model-level read (a function on heaps, not an enumeration): given a consistent heap
+   and the stored messages it leaves a consistent heap, writes no library object that existed, and
+   returns library messages.  Unlike the write path it MAY link new objects to old ones (an assembled
+   response holds the stored messages). *)
+Definition wb_read (rf : rfun) : Prop :=
+  forall s ts, heap_ok (nxt s) s -> (forall t, In t ts -> libtag (nxt s) t) ->
+    heap_ok (nxt (fst (rf s ts))) (fst (rf s ts)) /\ frame (nxt s) s (fst (rf s ts)) /\
+    Forall (libtag (nxt (fst (rf s ts)))) (snd (rf s ts)).
+
 Definition op_ok (o : op) : Prop :=
   match o with
   | OWrite _ arg _ _ _ ib ia => arg_wf arg = true /\ wb_before ib /\ wb_after ia
   | OPull _ _ h => wb_hook h
+  | ORead rf => wb_read rf
   | _ => True
   end.
 
@@ -192,7 +210,7 @@ Proof. intros [A B] H. split; auto; lia. Qed.
 Local Opaque alloc_arg clone publish_events filter_clone upd_merge scramble.
 
 Lemma step_good n st o : inv st -> op_ok o ->
-  good (nxt (hs st)) (hs st) (hs (step n st o)) /\ inv (step n st o) /\ new_snaps_ok st (step n st o).
+  frame (nxt (hs st)) (hs st) (hs (step n st o)) /\ inv (step n st o) /\ new_snaps_ok st (step n st o).
 Proof.
   intros (Hh & Hst & Hsn) Hop. set (lo := nxt (hs st)).
   assert (Hfin : forall s' store' snaps' subs' coll' l,
@@ -200,9 +218,9 @@ Proof.
              (forall id t, In (id, t) store' -> libtag (nxt s') t) ->
              snaps' = snaps st ++ l ->
              Forall (fun t => snd t < nxt s' /\ (fst t = Lib \/ t = (Caller, lo))) l ->
-             good lo (hs st) s' /\ inv (mkS s' store' snaps' subs' coll') /\
+             frame lo (hs st) s' /\ inv (mkS s' store' snaps' subs' coll') /\
              new_snaps_ok st (mkS s' store' snaps' subs' coll')).
-  { intros s' store' snaps' subs' coll' l G Hs' -> Hl. split; auto. split.
+  { intros s' store' snaps' subs' coll' l G Hs' -> Hl. split; [apply good_frame; auto|]. split.
     - split; [apply heap_ok_rebase with lo; apply G|]. split; auto.
       simpl. intros t Ht. apply in_app_iff in Ht. destruct Ht as [Ht|Ht].
       + specialize (Hsn t Ht). destruct G as (_ & ? & _). fold lo in Hsn. lia.
@@ -210,9 +228,9 @@ Proof.
     - exists l. split; auto. eapply Forall_impl; [|apply Hl]. intros a [_ H]. exact H. }
   assert (Hstore : forall s', good lo (hs st) s' -> forall id t, In (id, t) (store st) -> libtag (nxt s') t).
   { intros s' G id t Hin. eapply libtag_mono; [eapply Hst; eauto|]. apply G. }
-  assert (Hnop : good lo (hs st) (hs st) /\ inv st /\ new_snaps_ok st st).
-  { split; [apply good_refl; auto|]. split; [split; auto|]. exists []. split; [rewrite app_nil_r; auto | constructor]. }
-  destruct o as [id arg vis um m ib ia|id|id rm|rm|rm uo hook|k]; simpl.
+  assert (Hnop : frame lo (hs st) (hs st) /\ inv st /\ new_snaps_ok st st).
+  { split; [apply good_frame; apply good_refl; auto|]. split; [split; auto|]. exists []. split; [rewrite app_nil_r; auto | constructor]. }
+  destruct o as [id arg vis um m ib ia|id|id rm|rm|rm uo hook|k|rf]; simpl.
   - (* write *)
     destruct Hop as (Hwf & Hib & Hia).
     destruct (alloc_arg_good lo (hs st) arg Hh Hwf) as (G1 & Qa & Ea).
@@ -326,6 +344,17 @@ Proof.
       { apply scramble_good; auto. split; auto. split; [apply Hsn; auto | intro; discriminate]. }
       apply Hfin with (l := []); [exact G | intros; eapply Hstore; eauto | rewrite app_nil_r; auto | constructor].
     + exact Hnop.
+  - (* a model-level read *)
+    destruct (Hop (hs st) (map snd (store st)) Hh) as (H1 & H2 & H3).
+    { intros t Ht. apply in_map_iff in Ht. destruct Ht as ([id t'] & <- & Hin). eapply Hst; eauto. }
+    destruct (rf (hs st) (map snd (store st))) as [s1 rs] eqn:E. cbn [fst snd] in *.
+    split; [exact H2|]. split.
+    + split; [exact H1|]. split; cbn [hs store snaps].
+      * intros id t Hin. eapply libtag_mono; [eapply Hst; eauto | apply H2].
+      * intros t Ht. apply in_app_iff in Ht. destruct Ht as [Ht|Ht].
+        -- specialize (Hsn t Ht). destruct H2 as [? _]. lia.
+        -- rewrite Forall_forall in H3. apply (H3 t Ht).
+    + exists rs. split; auto. eapply Forall_impl; [|apply H3]. intros a [A _]. left; exact A.
 Qed.
 
 (* ---------- whole histories ---------- *)
@@ -346,7 +375,7 @@ Lemma run_lib_stable n : forall ops st, inv st -> Forall op_ok ops ->
 Proof.
   induction ops as [|o ops IH]; intros st Hi Hok; simpl; [split; [lia | auto]|].
   inversion Hok; subst.
-  destruct (step_good n st o Hi H1) as ((_ & N & F) & Hi' & _).
+  destruct (step_good n st o Hi H1) as ((N & F) & Hi' & _).
   destruct (IH _ Hi' H2) as [N' F']. split; [lia|].
   intros t Ht Hl. rewrite F'; auto. lia.
 Qed.
@@ -364,7 +393,8 @@ Proof.
     - destruct (fget id (store st)); [destruct (filter_clone _ _ _ _); eexists; reflexivity | exists []; rewrite app_nil_r; auto].
     - destruct (smap _ _ _). eexists; reflexivity.
     - destruct updates_only; [exists []; rewrite app_nil_r; auto | destruct (smap _ _ _); eexists; reflexivity].
-    - destruct (nth_error _ k); exists []; rewrite app_nil_r; auto. }
+    - destruct (nth_error _ k); exists []; rewrite app_nil_r; auto.
+    - destruct (rf _ _). eexists; reflexivity. }
   rewrite Hl, H0, <- app_assoc. eexists; reflexivity.
 Qed.
 
@@ -534,13 +564,15 @@ Proof.
   unfold clear_fields. destruct (lookup (hp s1) c) as [[sc subs reps|?]|]; auto. apply oa_write_fresh; auto.
 Qed.
 
+Definition pure_read (rf : rfun) : Prop := forall s ts, only_allocs s (fst (rf s ts)).
+
 Definition is_read_op (o : op) : Prop :=
-  match o with OGet _ _ | OList _ => True | OPull _ _ h => pure_hook h | _ => False end.
+  match o with OGet _ _ | OList _ => True | OPull _ _ h => pure_hook h | ORead rf => pure_read rf | _ => False end.
 
 Theorem reads_pure n st o : is_read_op o ->
   store (step n st o) = store st /\ only_allocs (hs st) (hs (step n st o)).
 Proof.
-  destruct o as [| |id rm|rm|rm uo hook|]; simpl; try tauto; intros Hr.
+  destruct o as [| |id rm|rm|rm uo hook| |rf]; simpl; try tauto; intros Hr.
   - destruct (fget id (store st)); [|split; [auto | apply oa_refl]].
     pose proof (filter_clone_oa n (hs st) t rm) as H. destruct (filter_clone n (hs st) t rm). simpl in *. auto.
   - pose proof (smap_oa (fun s p => filter_clone n s (snd p) rm) (fun s x => filter_clone_oa n s (snd x) rm) (store st) (hs st)) as H.
@@ -551,4 +583,5 @@ Proof.
       destruct (filter_clone n s (snd x) rm) as [s' r]. simpl in A.
       pose proof (Hr s' r) as B. destruct (hook s' r). simpl in *. eapply oa_trans; eauto. }
     destruct (smap _ (hs st) (store st)). simpl in *. auto.
+  - pose proof (Hr (hs st) (map snd (store st))) as H. destruct (rf _ _). simpl in *. auto.
 Qed.
